@@ -338,9 +338,12 @@ int bufr_expand_qualifiers( DataSubset* dss )
 			}
 
 		/* If we've got a qualifier, we need to add it into the list
-		 * or cancel it
+		 * or cancel it. The placeholders kept for a replication that
+		 * occurs zero times are not part of the data: they neither
+		 * define nor cancel anything.
 		 */
-		if( bufr_is_qualifier(pbcd[i]->descriptor) && pbcd[i]->value )
+		if( bufr_is_qualifier(pbcd[i]->descriptor) && pbcd[i]->value
+			&& !(pbcd[i]->flags & FLAG_SKIPPED) )
 			{
 			/* see if there's already an instance in the list. If so,
 			 * we replace/cancel it. Note that we search backwards, like
